@@ -172,7 +172,11 @@ def rand_terms(rng: random.Random, frame: dict, *, cats, nums, max_terms=5, max_
             continue
         seen.add(key)
         scale = rng.choice([None, None, None, "2", "2.5", "0.5", "3"]) if scales else None
-        terms.append({"scale": scale, "scale_pos": rng.randint(0, k), "factors": fs})
+        term = {"scale": scale, "scale_pos": rng.randint(0, k), "factors": fs}
+        if scale and rng.random() < 0.3:  # a second, different literal somewhere else in the term: the scale is their product
+            term["scale2"] = rng.choice([c for c in ["2", "2.5", "0.5", "3", "10"] if c != scale])
+            term["scale2_pos"] = rng.randint(0, k + 1)
+        terms.append(term)
     if not terms:
         terms.append({"scale": None, "scale_pos": 0, "factors": [atoms[0]]})
     return terms, {k: v for k, v in factors.items() if any(k in t["factors"] for t in terms)}
@@ -182,6 +186,8 @@ def term_text(term: dict, factors: dict) -> str:
     fs = [factors[f]["text"] for f in term["factors"]]
     if term["scale"]:
         fs.insert(term["scale_pos"], term["scale"])
+    if term.get("scale2"):
+        fs.insert(term["scale2_pos"], term["scale2"])
     return ":".join(fs)
 
 
